@@ -372,6 +372,15 @@ func workC18(req *Request, set []byte) {
 					seenOwn[p.JSONName] = true
 				}
 				o.Sub = []string{dup, unres, own}
+				var pt []string
+				for _, p := range props {
+					var nums []string
+					for _, n := range p.ProtoField {
+						nums = append(nums, fmt.Sprintf("%d", n))
+					}
+					pt = append(pt, fmt.Sprintf("(%s, [%s])", descgen.Str(p.JSONName), strings.Join(nums, "; ")))
+				}
+				o.Term = "[" + strings.Join(pt, "; ") + "]"
 			})
 		}
 		step(req, "newroot|"+full, func(o *Obs) {
